@@ -1,1 +1,374 @@
-/- C05: property theorems (not built yet). -/
+/-
+  C05 — A cell has one value, however and in whatever order it is reached.
+
+  Model: Pycel/Model/Engine.lean (generic engine, build on demand, lazy evaluation, caches), Pycel/Model/Access.lean
+  (access paths of `evaluate`: cell, bounded range, unbounded row/column range, list/tuple/generator, sheet-less address;
+  dimension trimming; clip to the used area), Pycel/Model/Addr.lean (rectangles).  Lemmas: Pycel/Lemmas/Access.lean.
+
+  Every theorem holds for EVERY workbook (any number of nodes, any DAG in topological presentation), EVERY value type,
+  EVERY formula semantics that reads only declared precedents, EVERY state satisfying the engine invariant (the three
+  ways of obtaining a model satisfy it: Props/C01) and EVERY order / history — by the C01 induction, never by sampling.
+-/
+import Pycel.Lemmas.Access
+import Pycel.Props.C01
+namespace Pycel.Access
+open Pycel Pycel.Engine Pycel.Addr
+
+variable {α β : Type} {wb : Workbook} {f : Nat → (Nat → α) → α} {L : Layout} {T : Tup α β}
+
+/-! ## "the value of a cell does not depend on the order in which cells were first evaluated or compiled into the model" -/
+
+/- any two sequences of (first or repeated) evaluations `o₁`, `o₂` — in particular any two permutations of the cells —
+   leave every cell `a` with the same value, the from-scratch value at the inputs. -/
+theorem C05_order (hwf : WF wb) (hl : Local wb f) (eqv : α → α → Bool) (s₀ : State α) (h₀ : Inv wb f s₀)
+    (o₁ o₂ : List Nat) (a : Nat) (ha : a < wb.n) :
+    (evaluate wb f a (run wb f eqv s₀ (o₁.map Op.eval))).1 =
+      (evaluate wb f a (run wb f eqv s₀ (o₂.map Op.eval))).1 ∧
+    (evaluate wb f a (run wb f eqv s₀ (o₁.map Op.eval))).1 = denote wb f s₀.inp a := by
+  have p1 := run_evals hwf hl eqv o₁ h₀
+  have p2 := run_evals hwf hl eqv o₂ h₀
+  have e1 := (evaluate_spec hwf hl p1.inv a).val ha
+  have e2 := (evaluate_spec hwf hl p2.inv a).val ha
+  rw [p1.inp] at e1
+  rw [p2.inp] at e2
+  exact ⟨e1.trans e2.symm, e1⟩
+
+/- the statement over permutations of the first-evaluation order, as the property words it -/
+theorem C05_order_perm (hwf : WF wb) (hl : Local wb f) (eqv : α → α → Bool) (s₀ : State α) (h₀ : Inv wb f s₀)
+    (o₁ o₂ : List Nat) (_ : o₁.Perm o₂) (a : Nat) (ha : a < wb.n) :
+    (evaluate wb f a (run wb f eqv s₀ (o₁.map Op.eval))).1 =
+      (evaluate wb f a (run wb f eqv s₀ (o₂.map Op.eval))).1 :=
+  (C05_order hwf hl eqv s₀ h₀ o₁ o₂ a ha).1
+
+/- the values returned WHILE the order is executed: the k-th evaluate of any order returns the from-scratch value of
+   its address, so the value an address shows does not depend on its position in the order nor on what came before. -/
+theorem C05_order_outputs (hwf : WF wb) (hl : Local wb f) (eqv : α → α → Bool) (s₀ : State α) (h₀ : Inv wb f s₀)
+    (o : List Nat) (ho : ∀ a ∈ o, a < wb.n) :
+    outputs wb f eqv s₀ (o.map Op.eval) = o.map fun a => some (denote wb f s₀.inp a) := by
+  rw [outputs_evals hwf hl eqv o h₀]
+  apply List.map_congr_left
+  intro a ha
+  simp [valueAt, ho a ha]
+
+/- hence the outputs of a permuted order are the permuted outputs -/
+theorem C05_order_outputs_perm (hwf : WF wb) (hl : Local wb f) (eqv : α → α → Bool) (s₀ : State α) (h₀ : Inv wb f s₀)
+    (o₁ o₂ : List Nat) (hp : o₁.Perm o₂) (ho : ∀ a ∈ o₁, a < wb.n) :
+    (outputs wb f eqv s₀ (o₁.map Op.eval)).Perm (outputs wb f eqv s₀ (o₂.map Op.eval)) := by
+  rw [C05_order_outputs hwf hl eqv s₀ h₀ o₁ ho,
+    C05_order_outputs hwf hl eqv s₀ h₀ o₂ (fun a ha => ho a (hp.mem_iff.mpr ha))]
+  exact hp.map _
+
+/- "or compiled into the model" — over the `built` flags (and caches, and stored results): two states that satisfy the
+   invariant and hold the same inputs give every cell the same value, whatever subset of cells is in the cell map
+   (`built`), whatever is cached, whatever stored results are still in use. -/
+theorem C05_built_irrelevant (hwf : WF wb) (hl : Local wb f) (s₁ s₂ : State α) (h₁ : Inv wb f s₁) (h₂ : Inv wb f s₂)
+    (hinp : s₁.inp = s₂.inp) (a : Nat) :
+    (evaluate wb f a s₁).1 = (evaluate wb f a s₂).1 := by
+  rw [evaluate_value hwf hl h₁, evaluate_value hwf hl h₂, hinp]
+
+/- an order of evaluations only adds cells to the cell map and entries to the cache; it never changes an input -/
+theorem C05_order_monotone (hwf : WF wb) (hl : Local wb f) (eqv : α → α → Bool) (s₀ : State α) (h₀ : Inv wb f s₀)
+    (o : List Nat) :
+    (run wb f eqv s₀ (o.map Op.eval)).inp = s₀.inp ∧
+    (∀ m, s₀.built m = true → (run wb f eqv s₀ (o.map Op.eval)).built m = true) ∧
+    (∀ m, s₀.cache m ≠ none → (run wb f eqv s₀ (o.map Op.eval)).cache m ≠ none) ∧
+    (∀ a ∈ o, a < wb.n → (run wb f eqv s₀ (o.map Op.eval)).built a = true) := by
+  have p := run_evals hwf hl eqv o h₀
+  refine ⟨p.inp, p.mono, p.keeps, ?_⟩
+  intro a ha han
+  obtain ⟨pre, post, rfl⟩ := List.append_of_mem ha
+  have : (pre ++ a :: post).map Op.eval = (pre.map Op.eval ++ [Op.eval a]) ++ post.map (Op.eval (α := α)) := by simp
+  rw [this, run_append]
+  have q := run_evals hwf hl eqv post (run_inv hwf hl eqv (pre.map Op.eval ++ [Op.eval a]) h₀)
+  apply q.mono
+  exact C01_built_after_evaluate hwf hl eqv s₀ h₀ (pre.map Op.eval) a han
+
+/- with writes in between (the stored-result staleness of C01 was an order dependence of this kind): two histories of
+   set_value/evaluate that end with the same current inputs give every cell the same value — whatever was built first. -/
+theorem C05_order_with_writes (hwf : WF wb) (hl : Local wb f) (eqv : α → α → Bool) (s₀ : State α) (h₀ : Inv wb f s₀)
+    (h₁ h₂ : List (Op α)) (hinp : (run wb f eqv s₀ h₁).inp = (run wb f eqv s₀ h₂).inp) (a : Nat) :
+    (evaluate wb f a (run wb f eqv s₀ h₁)).1 = (evaluate wb f a (run wb f eqv s₀ h₂)).1 :=
+  C05_built_irrelevant hwf hl _ _ (run_inv hwf hl eqv h₁ h₀) (run_inv hwf hl eqv h₂ h₀) hinp a
+
+/- whichever way the model was obtained (nothing built / stored results waiting / everything built): same values -/
+theorem C05_configurations (hwf : WF wb) (hl : Local wb f) (eqv : α → α → Bool) (inp : Nat → α)
+    (stored : Nat → Option α) (hc : StoredConsistent wb f inp stored) (o₁ o₂ o₃ : List Nat) (a : Nat) :
+    (evaluate wb f a (run wb f eqv (initNoData inp) (o₁.map Op.eval))).1 =
+      (evaluate wb f a (run wb f eqv (initStored inp stored) (o₂.map Op.eval))).1 ∧
+    (evaluate wb f a (run wb f eqv (initNoData inp) (o₁.map Op.eval))).1 =
+      (evaluate wb f a (run wb f eqv (initLoaded wb f inp) (o₃.map Op.eval))).1 := by
+  have i1 : Inv wb f (initNoData inp) := initNoData_inv inp
+  have i2 : Inv wb f (initStored inp stored) := initStored_inv inp stored hc
+  have i3 := initLoaded_spec hwf hl inp
+  have p1 := run_evals hwf hl eqv o₁ i1
+  have p2 := run_evals hwf hl eqv o₂ i2
+  have p3 := run_evals hwf hl eqv o₃ i3.1
+  exact ⟨C05_built_irrelevant hwf hl _ _ p1.inv p2.inv (by rw [p1.inp, p2.inp]; rfl) a,
+    C05_built_irrelevant hwf hl _ _ p1.inv p3.inv (by rw [p1.inp, p3.inp, i3.2.1]; rfl) a⟩
+
+/-! ## "and repeating evaluate returns the same value" -/
+
+/- the second evaluate returns the same value and leaves the whole state (cache, cell map, inputs) untouched -/
+theorem C05_repeat (hwf : WF wb) (hl : Local wb f) (s : State α) (h : Inv wb f s) (a : Nat) :
+    evaluate wb f a (evaluate wb f a s).2 = evaluate wb f a s :=
+  evaluate_idem hwf hl h a
+
+theorem C05_repeat_value (hwf : WF wb) (hl : Local wb f) (s : State α) (h : Inv wb f s) (a : Nat) :
+    (evaluate wb f a (evaluate wb f a s).2).1 = (evaluate wb f a s).1 ∧
+    (evaluate wb f a (evaluate wb f a s).2).2.cache = (evaluate wb f a s).2.cache := by
+  rw [C05_repeat hwf hl s h a]; exact ⟨rfl, rfl⟩
+
+/- not only immediately: after any number of other evaluations in between -/
+theorem C05_repeat_later (hwf : WF wb) (hl : Local wb f) (eqv : α → α → Bool) (s : State α) (h : Inv wb f s) (a : Nat)
+    (between : List Nat) :
+    (evaluate wb f a (run wb f eqv (evaluate wb f a s).2 (between.map Op.eval))).1 = (evaluate wb f a s).1 := by
+  have p := PathPost.of_evaluate hwf hl h a
+  have q := run_evals hwf hl eqv between p.inv
+  rw [evaluate_value hwf hl q.inv, evaluate_value hwf hl h, q.inp, p.inp]
+
+/- the same for every access path -/
+theorem C05_repeat_path (hwf : WF wb) (hl : Local wb f) (s : State α) (h : Inv wb f s) (p : Path) :
+    evalPath wb f L T p (evalPath wb f L T p s).2 = evalPath wb f L T p s :=
+  evalPath_idem hwf hl h p
+
+/-! ## "nor on the access path" -/
+
+/- every access path, after ANY history of set_value / evaluate (by any path): the returned value is the from-scratch
+   value of that path at the current inputs (`denoteArg` reads nothing but the inputs) -/
+theorem C05_path_coherence (hwf : WF wb) (hl : Local wb f) (eqv : α → α → Bool) (s₀ : State α) (h₀ : Inv wb f s₀)
+    (h : List (POp α)) (a : Arg) :
+    (evalArg wb f L T a (runP wb f L T eqv s₀ h)).1 = denoteArg wb f L T (runP wb f L T eqv s₀ h).inp a :=
+  (evalArg_spec hwf hl (runP_inv hwf hl eqv h h₀) a).1
+
+/- order independence over access paths: any two sequences of evaluations by any paths -/
+theorem C05_path_order (hwf : WF wb) (hl : Local wb f) (eqv : α → α → Bool) (s₀ : State α) (h₀ : Inv wb f s₀)
+    (o₁ o₂ : List Arg) (a : Arg) :
+    (evalArg wb f L T a (runP wb f L T eqv s₀ (o₁.map POp.eval))).1 =
+      (evalArg wb f L T a (runP wb f L T eqv s₀ (o₂.map POp.eval))).1 := by
+  have p1 := runP_evals (L := L) (T := T) hwf hl eqv o₁ h₀
+  have p2 := runP_evals (L := L) (T := T) hwf hl eqv o₂ h₀
+  rw [(evalArg_spec hwf hl p1.inv a).1, (evalArg_spec hwf hl p2.inv a).1, p1.inp, p2.inp]
+
+theorem C05_path_outputs (hwf : WF wb) (hl : Local wb f) (eqv : α → α → Bool) (s₀ : State α) (h₀ : Inv wb f s₀)
+    (o : List Arg) :
+    outputsP wb f L T eqv s₀ (o.map POp.eval) = o.map fun a => some (denoteArg wb f L T s₀.inp a) :=
+  outputsP_evals hwf hl eqv o h₀
+
+/- "evaluate(cell), the matching element of evaluate(any range containing it) … agree":
+   for EVERY rectangle `R` that has a range node (or is the 1×1 rectangle of the cell) and EVERY cell `c` it contains,
+   element (row c − top, col c − left) of `evaluate(R)` on state `s` — read through the trimmed shape — is the value
+   `evaluate(c)` returns on ANY state `s'` with the same inputs (any other order, a fresh model), = the from-scratch
+   value. -/
+theorem C05_range_elem (hwf : WF wb) (hl : Local wb f) (ok : LayoutOK wb f L T) (s s' : State α) (h : Inv wb f s)
+    (h' : Inv wb f s') (hinp : s'.inp = s.inp) (R : Rect) (hR : isCellRect R = true ∨ (L.rangeNode R).isSome)
+    (c : Cell) (hc : R.contains c = true) (hs : c.sheet = R.sheet) (hlt : L.cellNode c < wb.n) :
+    (evalRect wb f L T R s).1.elem (R.r2 + 1 - R.r1) (R.c2 + 1 - R.c1) (c.row - R.r1) (c.col - R.c1) =
+      some (T.scal (evaluate wb f (L.cellNode c) s').1) ∧
+    (evaluate wb f (L.cellNode c) s').1 = denote wb f s.inp (L.cellNode c) := by
+  have hv : (evaluate wb f (L.cellNode c) s').1 = denote wb f s.inp (L.cellNode c) := by
+    rw [(evaluate_spec hwf hl h' _).val hlt, hinp]
+  refine ⟨?_, hv⟩
+  rw [(evalRect_spec hwf hl h R).1, hv]
+  cases hn : isCellRect R with
+  | true => exact denoteRect_elem_cell s.inp hn hc hs hlt
+  | false =>
+    rcases hR with hR | hR
+    · rw [hn] at hR; cases hR
+    · obtain ⟨r, hr⟩ := Option.isSome_iff_exists.mp hR
+      exact denoteRect_elem_range hwf hl ok s.inp hn hr hc hs
+
+/- the value of a range path as a whole: the trimmed table of the from-scratch values of its cells -/
+theorem C05_range_value (hwf : WF wb) (hl : Local wb f) (ok : LayoutOK wb f L T) (s : State α) (h : Inv wb f s)
+    (R : Rect) (r : Nat) (hn : isCellRect R = false) (hr : L.rangeNode R = some r) :
+    (evalRect wb f L T R s).1 =
+      trimDims (R.rows.map (·.map fun c => T.scal (denote wb f s.inp (L.cellNode c)))) := by
+  rw [(evalRect_spec hwf hl h R).1]
+  unfold denoteRect
+  have hrn := (ok.range_node R r hr).1
+  simp only [hn, Bool.false_eq_true, ↓reduceIte, hr, valueAt, hrn]
+  rw [denote_range hwf hl ok s.inp hr, T.untup_tup]
+  simp [List.map_map, Function.comp_def]
+
+/-! ### dimension trimming (`_evaluate_non_iterative` 886-890) -/
+
+/- 1×1 → scalar; single column → flat tuple; single row → flat tuple; otherwise unchanged -/
+theorem C05_trim_shapes (rows : List (List β)) (h w : Nat) (ht : IsTable rows h w) (hh : 1 ≤ h) (hw : 1 ≤ w) :
+    (h = 1 → w = 1 → ∃ v, rows = [[v]] ∧ trimDims rows = .sc v) ∧
+    (2 ≤ h → w = 1 → trimDims rows = .vec rows.flatten ∧ rows.flatten.length = h) ∧
+    (h = 1 → 2 ≤ w → ∃ r, rows = [r] ∧ trimDims rows = .vec r) ∧
+    (2 ≤ h → 2 ≤ w → trimDims rows = .grid rows) := by
+  refine ⟨?_, ?_, ?_, ?_⟩
+  · intro h1 w1
+    subst h1; subst w1
+    obtain ⟨hlen, hwid⟩ := ht
+    match rows, hlen, hwid with
+    | [r], _, hwid =>
+      have := hwid r (by simp)
+      match r, this with
+      | [v], _ => exact ⟨v, rfl, rfl⟩
+  · intro h2 w1
+    subst w1
+    refine ⟨trimDims_col rows h ht h2, ?_⟩
+    rw [length_flatten_const rows 1 ht.2, ht.1]; omega
+  · intro h1 w2
+    subst h1
+    obtain ⟨hlen, hwid⟩ := ht
+    match rows, hlen, hwid with
+    | [r], _, hwid => exact ⟨r, rfl, trimDims_row r (by have := hwid r (by simp); omega)⟩
+  · intro h2 w2
+    exact trimDims_grid rows h w ht h2 (by omega)
+
+/- trimming loses nothing: element (i, j) read through the trimmed shape is element (i, j) of the table -/
+theorem C05_trim_elem (rows : List (List β)) (h w i j : Nat) (ht : IsTable rows h w) (hi : i < h) (hj : j < w) :
+    (trimDims rows).elem h w i j = (rows[i]?).bind (·[j]?) :=
+  trimDims_elem rows h w i j ht (by omega) (by omega) hi hj
+
+/-! ### "of an unbounded row/column range clipped to the used area" -/
+
+/- the clipped range enumerates EXACTLY the cells of those columns (rows) that lie inside the used area
+   `(1, 1, max_col, max_row)` of its sheet (cells of a rectangle: C11 `C11_cells_mem`); an empty clip means there is no
+   such cell -/
+theorem C05_unbounded_cells (u : Rect) (mc mr : Nat) (hu : if u.r1 = 0 then 1 ≤ u.c1 else True) :
+    match clip u mc mr with
+    | some R => ∀ c, c ∈ R.cells ↔ (c.sheet = u.sheet ∧ inUnbounded u c ∧ (usedRect u.sheet mc mr).contains c = true)
+    | none => ∀ c, ¬ (inUnbounded u c ∧ (usedRect u.sheet mc mr).contains c = true) :=
+  clip_spec u mc mr hu
+
+/- the clip is what the code computes, `address & AddressRange((1, 1, max_col, max_row))` with the C11 intersection
+   (unbounded corners are 0), PROVIDED the used area does not reach the last row (column) of the sheet.
+   Full statement (no `mr < MAX_ROW` / `mc < MAX_COL`) is false of the code: `C05_clip_inter_counterexample`. -/
+theorem C05_clip_is_inter_cols_partial (s : Str) (c1 c2 mc mr : Nat) (h1 : 1 ≤ c1) (h2 : c1 ≤ c2) (hmc : 1 ≤ mc)
+    (hmr : 1 ≤ mr) (hr : mr < MAX_ROW) :
+    (⟨s, c1, 0, c2, 0⟩ : Rect).inter (usedRect s mc mr) =
+      match clip ⟨s, c1, 0, c2, 0⟩ mc mr with
+      | some R => .rect R
+      | none => .null :=
+  inter_used_cols s c1 c2 mc mr h1 h2 hmc hmr hr
+
+theorem C05_clip_is_inter_rows_partial (s : Str) (r1 r2 mc mr : Nat) (h1 : 1 ≤ r1) (h2 : r1 ≤ r2) (hmc : 1 ≤ mc)
+    (hmr : 1 ≤ mr) (hc : mc < MAX_COL) :
+    (⟨s, 0, r1, 0, r2⟩ : Rect).inter (usedRect s mc mr) =
+      match clip ⟨s, 0, r1, 0, r2⟩ mc mr with
+      | some R => .rect R
+      | none => .null :=
+  inter_used_rows s r1 r2 mc mr h1 h2 hmc hmr hc
+
+/- row `1:1` on a sheet whose used area reaches column XFD (16384): the code's intersection stops at XFC, the cell
+   XFD1 is in row 1 inside the used area but not in the computed range (pycel: `evaluate('Sheet1!1:1')` has 16383
+   elements and misses the value of XFD1) — known finding `unbounded.maxedge`. -/
+theorem C05_clip_inter_counterexample :
+    (⟨['S'], 0, 1, 0, 1⟩ : Rect).inter (usedRect ['S'] 16384 1) = .rect ⟨['S'], 1, 1, 16383, 1⟩ ∧
+    clip ⟨['S'], 0, 1, 0, 1⟩ 16384 1 = some ⟨['S'], 1, 1, 16384, 1⟩ ∧
+    (⟨['S'], 1, 1, 16383, 1⟩ : Rect).contains ⟨['S'], 16384, 1⟩ = false := by
+  decide +kernel
+
+/- the matching element of the unbounded range: for every cell `c` of those columns/rows inside the used area, the
+   element of `evaluate(unbounded address)` at `c`'s position in the clipped rectangle is `evaluate(c)` (on any state
+   with the same inputs) -/
+theorem C05_unbounded_elem (hwf : WF wb) (hl : Local wb f) (ok : LayoutOK wb f L T) (s s' : State α) (h : Inv wb f s)
+    (h' : Inv wb f s') (hinp : s'.inp = s.inp) (u : Rect) (hsh : u.sheet ≠ []) (R : Rect)
+    (hclip : clip u (L.used u.sheet).1 (L.used u.sheet).2 = some R)
+    (hR : isCellRect R = true ∨ (L.rangeNode R).isSome)
+    (c : Cell) (hc : c ∈ R.cells) (hlt : L.cellNode c < wb.n) :
+    (evalPath wb f L T (.unbounded u) s).1.elem (R.r2 + 1 - R.r1) (R.c2 + 1 - R.c1) (c.row - R.r1) (c.col - R.c1) =
+      some (T.scal (evaluate wb f (L.cellNode c) s').1) := by
+  have hm := (mem_cells R c).mp hc
+  have e : L.rectAt u = u := by simp [Layout.rectAt, hsh]
+  have : evalPath wb f L T (.unbounded u) s = evalRect wb f L T R s := by
+    simp only [evalPath, e, hclip]
+  rw [this]
+  exact (C05_range_elem hwf hl ok s s' h h' hinp R hR c hm.1 hm.2 hlt).1
+
+/-! ### "and of a list/tuple/generator of addresses" -/
+
+/- evaluate(list) = map evaluate: element k is what `evaluate(path k)` returns on its own — on the same state, or on any
+   state `s'` with the same inputs (a fresh model, another order); a list stays a list, a tuple or generator gives a
+   tuple -/
+theorem C05_list (hwf : WF wb) (hl : Local wb f) (s s' : State α) (h : Inv wb f s) (h' : Inv wb f s')
+    (hinp : s'.inp = s.inp) (k : Container) (ps : List Path) :
+    (evalArg wb f L T (.many k ps) s).1 = .many k.isTuple (ps.map fun p => (evalPath wb f L T p s').1) := by
+  rw [(evalArg_spec hwf hl h _).1]
+  simp only [denoteArg]
+  congr 1
+  apply List.map_congr_left
+  intro p _
+  rw [(evalPath_spec hwf hl h' p).1, hinp]
+
+/-! ### "sheet-less address with active sheet" -/
+
+theorem C05_sheetless_cell (s : State α) (col row : Nat) :
+    evalPath wb f L T (.cell ⟨[], col, row⟩) s = evalPath wb f L T (.cell ⟨L.active, col, row⟩) s := by
+  by_cases h : L.active = []
+  · simp [evalPath, Layout.cellAt, h]
+  · simp [evalPath, Layout.cellAt, h]
+
+theorem C05_sheetless_range (s : State α) (c1 r1 c2 r2 : Nat) :
+    evalPath wb f L T (.range ⟨[], c1, r1, c2, r2⟩) s = evalPath wb f L T (.range ⟨L.active, c1, r1, c2, r2⟩) s := by
+  by_cases h : L.active = []
+  · simp [evalPath, Layout.rectAt, h]
+  · simp [evalPath, Layout.rectAt, h]
+
+/-! ## the instance the correspondence driver runs (Drv/C05.lean) -/
+
+section Inst
+open Pycel.EngineInst
+
+/- for every workbook description and layout table that pass the driver's run-time checks, the hypotheses of the
+   theorems above hold -/
+theorem C05_inst_hyps (specs : List Spec) (active : Str) (cells : List (Cell × Nat)) (ranges : List (Rect × Nat))
+    (used : List (Str × Nat × Nat)) (dflt : Nat) (hwf : wfCheck specs = true)
+    (hlay : layoutCheck specs cells ranges dflt = true) :
+    WF (mkWb specs) ∧ Local (mkWb specs) (sem specs) ∧
+      LayoutOK (mkWb specs) (sem specs) (mkLayout active cells ranges used dflt) evTup :=
+  ⟨wf_of_check specs hwf, sem_local specs, layoutOK_of_check specs active cells ranges used dflt hlay⟩
+
+theorem C05_inst_path_coherence (specs : List Spec) (Lay : Layout) (hwf : wfCheck specs = true) (s₀ : State EV)
+    (h₀ : Inv (mkWb specs) (sem specs) s₀) (h : List (POp EV)) (a : Arg) :
+    (evalArg (mkWb specs) (sem specs) Lay evTup a (runP (mkWb specs) (sem specs) Lay evTup typedEq s₀ h)).1 =
+      denoteArg (mkWb specs) (sem specs) Lay evTup (runP (mkWb specs) (sem specs) Lay evTup typedEq s₀ h).inp a :=
+  C05_path_coherence (wf_of_check specs hwf) (sem_local specs) typedEq s₀ h₀ h a
+
+/-! ### non-vacuity: a concrete workbook with a layout, a range node, an unbounded path -/
+
+/-- Sheet "S": A1 = 1, A2 = "a", B1 = A1&"|"&A2&"|", B2 blank, range A1:B2, C1 = SUM(A1:B2) -/
+def demo : List Spec :=
+  [.inp (.num 1), .inp (.str ['a']), .fml (.cat [0, 1]), .inp .blank, .rng [[0, 2], [1, 3]], .fml (.sum [4])]
+
+def demoCells : List (Cell × Nat) :=
+  [(⟨['S'], 1, 1⟩, 0), (⟨['S'], 1, 2⟩, 1), (⟨['S'], 2, 1⟩, 2), (⟨['S'], 2, 2⟩, 3), (⟨['S'], 3, 1⟩, 5)]
+
+def demoRanges : List (Rect × Nat) := [(⟨['S'], 1, 1, 2, 2⟩, 4)]
+
+def demoLayout : Layout := mkLayout ['S'] demoCells demoRanges [(['S'], 3, 2)] 99
+
+example : wfCheck demo = true := by decide
+example : layoutCheck demo demoCells demoRanges 99 = true := by decide
+example : LayoutOK (mkWb demo) (sem demo) demoLayout evTup :=
+  (C05_inst_hyps demo ['S'] demoCells demoRanges [(['S'], 3, 2)] 99 (by decide) (by decide)).2.2
+example : Inv (mkWb demo) (sem demo) (initNoData (inputsOf demo)) := initNoData_inv _
+
+/- the model executed: a range, a sheet-less cell, the unbounded column B (clipped to B1:B2, a flat tuple), and a list -/
+example :
+    (evalPath (mkWb demo) (sem demo) demoLayout evTup (.range ⟨['S'], 1, 1, 2, 2⟩) (initNoData (inputsOf demo))).1 =
+      .grid [[.num 1, .str "1|a|".toList], [.str ['a'], .blank]] := by decide +kernel
+
+example :
+    (evalPath (mkWb demo) (sem demo) demoLayout evTup (.cell ⟨[], 3, 1⟩) (initNoData (inputsOf demo))).1 =
+      .sc (.num 1) := by decide +kernel
+
+example : clip ⟨['S'], 2, 0, 2, 0⟩ 3 2 = some ⟨['S'], 2, 1, 2, 2⟩ := by decide
+
+example :
+    (evalArg (mkWb demo) (sem demo) demoLayout evTup (.many .gen [.cell ⟨['S'], 2, 1⟩, .cell ⟨['S'], 3, 1⟩])
+      (initNoData (inputsOf demo))).1 = .many true [.sc (.str "1|a|".toList), .sc (.num 1)] := by decide +kernel
+
+/- two different first-evaluation orders, same values (an executed instance of `C05_order`) -/
+example :
+    (evaluate (mkWb demo) (sem demo) 5 (run (mkWb demo) (sem demo) typedEq (initNoData (inputsOf demo))
+      ([5, 4, 2, 0].map Op.eval))).1 =
+    (evaluate (mkWb demo) (sem demo) 5 (run (mkWb demo) (sem demo) typedEq (initNoData (inputsOf demo))
+      ([0, 1, 2, 3, 4].map Op.eval))).1 := by decide +kernel
+
+end Inst
+
+end Pycel.Access
